@@ -198,7 +198,7 @@ func checkC01(p *Prog, res *Result, tier string) {
 			res.bad("C01-R2", name+": conditional index op", pos, "a version record is written in a batch that has no conditional operation on the index record")
 		case vb.ck.Kind != keyIndex:
 			res.bad("C01-R2", name+": conditional index op", p.pos(vb.cond.Call.Pos()), "the conditional operation of the batch is not on an index key")
-		case p.ctxValue(vb.ck.RawKey, nil) != p.ctxValue(vb.pk.RawKey, nil):
+		case !sameVal(vb.ck.RawKey, vb.pk.RawKey):
 			res.bad("C01-R2", name+": conditional index op", p.pos(vb.cond.Call.Pos()), "the index key and the version key of the batch are derived from different user keys")
 		default:
 			res.ok("C01-R2", name+": conditional index op", p.pos(vb.cond.Call.Pos()), vb.cond.Kind+" on the index key of the same user key as the version record")
@@ -213,7 +213,7 @@ func checkC01(p *Prog, res *Result, tier string) {
 			switch {
 			case !ok:
 				res.und("C01-R2", name+": index value encodes the version revision", p.pos(vb.cond.Call.Pos()), "cannot identify the revision encoded in the new index value")
-			case p.resolveDeep(rb.Rev) != p.resolveDeep(vb.pk.Rev):
+			case !sameVal(rb.Rev, vb.pk.Rev):
 				res.bad("C01-R2", name+": index value encodes the version revision", p.pos(vb.cond.Call.Pos()), "the new index value encodes a different revision than the one in the version key: the index would point to a version that does not exist")
 			default:
 				res.ok("C01-R2", name+": index value encodes the version revision", p.pos(vb.cond.Call.Pos()), "same revision value in index value and version key")
@@ -435,18 +435,20 @@ func checkExpectedProvenance(p *Prog, r *Roles, ts *tombstoneRole, a *allocInfo,
 		res.bad("C01-R3", construct, pos, "the expected value of the CAS encodes a revision that is neither the caller's expectation nor an observed value")
 		return
 	}
-	// form C: raw bytes observed in a conflict or a re-read, guarded by ParseRevision(old) => isTombstone && prev < new
+	// form C: raw bytes observed in a conflict or a re-read, guarded by ParseRevision(old) => isTombstone && prev < new.
+	// The observation, the parse and the guard may live in the caller(s) of the batch function: the expected value is
+	// followed up the call chain and the guard is looked for among the facts that hold at the CAS (interprocedural).
 	parse := p.fn("pkg/backend/coder", "ParseRevision")
+	oldUp := resolveUp(old)
 	var pc *ssa.Call
-	for _, c := range callsIn(fn) {
-		if cc, ok := c.(*ssa.Call); ok && cc.Common().StaticCallee() == parse && p.resolveDeep(cc.Common().Args[0]) == old {
-			pc = cc
+	for _, g := range p.AllFuncs {
+		for _, c := range callsIn(g) {
+			if cc, ok := c.(*ssa.Call); ok && cc.Common().StaticCallee() == parse && sameVal(cc.Common().Args[0], oldUp) {
+				pc = cc
+			}
 		}
 	}
 	site := ssa.Instruction(vb.cond.Call.(ssa.Instruction))
-	if vb.ctx != nil {
-		site = vb.ctx.(ssa.Instruction)
-	}
 	if pc == nil {
 		res.bad("C01-R3", construct, pos, "the expected value is a raw byte string that is not parsed by ParseRevision before use: no evidence it is an observed index value under the tombstone guard")
 		return
@@ -459,11 +461,11 @@ func checkExpectedProvenance(p *Prog, r *Roles, ts *tombstoneRole, a *allocInfo,
 			tomb = true
 		}
 		if cf.X != nil {
-			x, y, op, want := p.resolveDeep(cf.X), p.resolveDeep(cf.Y), cf.Op, cf.Want
-			if x == ex[0] && y == newRev && ((op == token.LSS && want) || (op == token.GEQ && !want)) {
+			x, y, op, want := cf.X, cf.Y, cf.Op, cf.Want
+			if sameVal(x, ex[0]) && sameVal(y, newRev) && ((op == token.LSS && want) || (op == token.GEQ && !want)) {
 				ordered = true
 			}
-			if y == ex[0] && x == newRev && ((op == token.GTR && want) || (op == token.LEQ && !want)) {
+			if sameVal(y, ex[0]) && sameVal(x, newRev) && ((op == token.GTR && want) || (op == token.LEQ && !want)) {
 				ordered = true
 			}
 		}
